@@ -1,6 +1,7 @@
 package keeper
 
 import (
+	storetypes "cosmossdk.io/store/types"
 	sdk "github.com/cosmos/cosmos-sdk/types"
 
 	"github.com/functionx/fx-core/v8/x/crosschain/types"
@@ -31,4 +32,20 @@ func (k Keeper) GetPendingExecuteClaim(ctx sdk.Context, eventNonce uint64) (type
 func (k Keeper) DeletePendingExecuteClaim(ctx sdk.Context, eventNonce uint64) {
 	store := ctx.KVStore(k.storeKey)
 	store.Delete(types.GetPendingExecuteClaimKey(eventNonce))
+}
+
+// IteratePendingExecuteClaim iterates over the observed claims that wait for execution
+func (k Keeper) IteratePendingExecuteClaim(ctx sdk.Context, cb func(claim types.ExternalClaim) bool) {
+	store := ctx.KVStore(k.storeKey)
+	iter := storetypes.KVStorePrefixIterator(store, types.PendingExecuteClaimKey)
+	defer iter.Close()
+	for ; iter.Valid(); iter.Next() {
+		var claim types.ExternalClaim
+		if err := k.cdc.UnmarshalInterface(iter.Value(), &claim); err != nil {
+			panic(err)
+		}
+		if cb(claim) {
+			break
+		}
+	}
 }
